@@ -288,7 +288,7 @@ pub fn run(ctx: &mut Ctx) {
     ctx.rule("archives built by the independent builder with names from a SAFE pool (unique nested paths, explicit dirs >= 0o700, any permission bits on files, no conflicts) or a HOSTILE pool ('..' chains up to 8 deep, absolute paths into a disposable canary directory, NUL, backslash chains, './..' prefixes, duplicates, file/dir conflicts, symlink-typed entries, deep nesting), extracted with ZipArchive::extract and ZipStreamReader::extract into a 12-level nested sandbox under /var/tmp. Oracle: recursive snapshot (type, mode, content hash) of everything outside the target is unchanged; an archive with an unsafe name (C06 string model) returns Err; an all-safe archive returns Ok and the tree equals the model exactly (implied parents, contents, mode & 0o777 for every entry that records one). Non-trivial = has a hostile name, or >=3 safe entries with nesting.");
     ctx.assume("hostile names use only zv_-prefixed components, at most 8 '..' (cannot leave the 12-level nest) and absolute paths only under the run's own canary directory, so even a tree with broken sanitisation cannot touch anything real");
     ctx.assume("symlink-typed entries are extracted as regular files (what the code does; it cannot escape)");
-    let n = ctx.q(600, 10000);
+    let n = ctx.q(3000, 40000);
     let canary = format!("/var/tmp/zv-c07-{}-canarybait", std::process::id());
     ctx.explore::<Case>(
         "extract",
